@@ -226,6 +226,24 @@ def check(run, replay=None):
         elif cid in res:
             o, tr = meta[cid]
             why = spec_violation(o, tr)
+            if not why:
+                # search for a failing input near this configuration: keep only its plain AT TIME controls (all of them, then every pair),
+                # for which the statement has an independent oracle, and run the implementation on those
+                import copy as _copy
+                import itertools as _it
+                plain = [c for c in o["controls"] if c["cond"].get("kind") == "sim" and c["cond"]["rel"] == "=" and not c["cond"]["repeat"]]
+                subsets = ([plain] if len(plain) >= 1 else []) + [list(p_) for p_ in _it.combinations(plain, 2)][:10]
+                for sub in subsets:
+                    o2 = _copy.deepcopy(o)
+                    o2["controls"], o2["rules"] = _copy.deepcopy(sub), []
+                    try:
+                        tr2 = impl_trace(wntr, o2)
+                    except Exception:
+                        continue
+                    why2 = spec_violation(o2, tr2)
+                    if why2:
+                        o, tr, why = o2, tr2, why2 + " (found by reducing a configuration whose trace differs from the model)"
+                        break
             if why:
                 run.violation("time_control_semantics", "time controls: " + why, input=o, impl_trace=tr)
             else:
